@@ -20,7 +20,7 @@ CHECKS = {
          "DESIGN.md §2 C03"),
  "C01": ("exploration",
          "bounded-exhaustive enumeration (full product of hosts x schemes x ports x RP-ID shapes x configurations, every PSL rule) on the real RpIdVerifier and Client, independent PSL matcher as oracle",
-         "The (origin, RP ID) space is infinite; the check enumerates completely a finite domain built from every shortcut visible in the code (character suffixes vs. label suffixes, every rule of the shipped list incl. IDN forms, localhost shapes, IP literals, schemes, ports, both providers, web and Android) and judges every accepted pair with the implication stated in the property, using a textbook PSL matcher over the .dat file. Exhaustive over that domain, not a proof for all strings.",
+         "The (origin, RP ID) space is infinite; the check enumerates completely a finite domain built from every shortcut visible in the code (character suffixes vs. label suffixes, every rule of the shipped list incl. IDN forms, localhost shapes, IP literals, schemes, ports, both providers, web and Android) and judges every accepted pair with the implication stated in the property, using a textbook PSL matcher over the .dat file. Histories are covered too: every ordered pair (thorough: triple) of 24 representative calls on one RpIdVerifier and on one Client must give the verdict a fresh instance gives. Exhaustive over that domain, not a proof for all strings.",
          "url/idna crates trusted for URL parsing; registrability judged on the A-label form by the harness matcher; the custom provider is the harness's own.",
          "DESIGN.md §2 C01"),
  "C11": ("model_checking",
@@ -30,7 +30,7 @@ CHECKS = {
          "DESIGN.md §2 C11"),
  "C05": ("model_checking",
          "complete enumeration of store contents x lists x RPs x listing orders on the real Authenticator over the contract store, and of the shipped stores' find_credentials against the documented contract",
-         "With a universe of four credentials (two RPs, equal user handles across RPs) all 16 store contents, three RPs, absent/empty/sub-list allow and exclude lists (incl. unknown ids and ids of the other RP) and both listing orders are run through get_assertion and make_credential; the credential that signs / the refusal is compared with the contract model. The same inputs are given to find_credentials of MemoryStore, Option<Passkey> and their four lock wrappers and compared with the contract set; wrappers are compared with the store they wrap.",
+         "With a universe of four credentials (two RPs, equal user handles across RPs) all 16 store contents, three RPs, absent/empty/sub-list allow and exclude lists (incl. unknown ids and ids of the other RP) and both listing orders are run through get_assertion and make_credential; the credential that signs / the refusal is compared with the contract model. The same inputs are given to find_credentials of MemoryStore, Option<Passkey> and their four lock wrappers and compared with the contract set; wrappers are compared with the store they wrap. Descriptors carry every transports-hint shape, and the exclude clause is also explored under all interleavings with a concurrent assertion over both lock wrappers.",
          "Outcomes are demanded, not the arguments the store receives; three RP-blindness discrepancies of the shipped stores are known findings (KNOWN_FINDINGS.txt).",
          "DESIGN.md §2 C05"),
  "C06": ("exploration",
@@ -55,12 +55,12 @@ CHECKS = {
          "DESIGN.md §2 C10"),
  "C04": ("model_checking",
          "explicit-state enumeration of the complete configuration product on the real Authenticator/Client, reference consent rule as oracle",
-         "Every configuration of the finite product (operation, rk/up/uv, verification and presence capability, 7 validation outcomes, pin-auth, store kind, 4 store contents; plus the client-level userVerification dimension) is executed on the real code and compared with a 30-line reference of the consent rule, the call log order and the store snapshot. The space is finite and is enumerated completely, which is the strongest statement available for a configuration property.",
+         "Every configuration of the finite product (operation, rk/up/uv, verification and presence capability, 7 validation outcomes, pin-auth, store kind, 4 store contents; plus the client-level userVerification dimension) is executed on the real code and compared with a 30-line reference of the consent rule, the call log order and the store snapshot. Six store contents include two simultaneously matching credentials; all ordered pairs of ceremonies on one authenticator with changing validation outcomes check that consent does not carry over. The space is finite and is enumerated completely, which is the strongest statement available for a configuration property.",
          "Harness implementations of CredentialStore/UserValidationMethod close the system; only Ok/Err class, flag bits, call order, store snapshots and equality of status bytes across store contents are compared.",
          "DESIGN.md §2 C04"),
  "C12": ("exploration",
          "bounded-exhaustive enumeration: full product of constructor/setter inputs, every truncation and every single-byte corruption (16 boundary values, all 256 for a representative subset) of each encoding, independent byte-level parser as oracle",
-         "Values over all combinations of RP id, counter, flag subset, attested data (id lengths 0..65535) and extension outputs are encoded by the real code and parsed by a byte-level parser written from the WebAuthn layout; decoding must return an equal value; every strict prefix must be rejected and every single-byte replacement must return without panic, with reserved flag bits and missing flagged sections rejected. About 10^8 decodes in the quick tier; thorough adds all two-byte corruptions of the shortest encodings.",
+         "Values over all combinations of RP id, counter, flag subset, attested data (id lengths 0..65535) and extension outputs are encoded by the real code and parsed by a byte-level parser written from the WebAuthn layout; decoding must return an equal value; every strict prefix must be rejected and every single-byte replacement must return without panic, with reserved flag bits and missing flagged sections rejected. All sequences of up to 3 (4) setter calls out of 11 are explored as well (AT/ED exactly when the section is present, own encoding decodes). About 10^8 decodes in the quick tier; thorough adds all two-byte corruptions of the shortest encodings.",
          "AT/ED are structural so only subsets of {UP,UV,BE,BS} are assigned; corruption is exhaustive to one byte (two for the shortest encodings), not beyond.",
          "DESIGN.md §2 C12"),
  "C13": ("exploration",
@@ -100,7 +100,7 @@ CHECKS = {
          "DESIGN.md §2 C15"),
  "C18": ("model_checking",
          "differential enumeration of every CTAP2-level configuration through the inherent methods and through the Ctap2Api trait on identically seeded authenticators, in isolated worker processes with stack limit and watchdog",
-         "All configurations of the C04 product x store contents x two stores x PRF on/off (about 6.7k quick, 13k thorough) and getInfo for every capability are run both ways; result (status byte or the full response including the deterministic signature, fresh ids normalised), store snapshot and store writes must agree; termination is decided by the isolated worker: a stack overflow or watchdog expiry during a trait call is the verdict for that case.",
+         "All configurations of the C04 product x store contents x two stores x PRF on/off (about 6.7k quick, 13k thorough) and getInfo for every capability are run both ways; result (status byte or the full response including the deterministic signature, fresh ids normalised), store snapshot and store writes must agree; pairs/triples of operations on one authenticator with a capability change in between are compared the same way; termination is decided by the isolated worker: a stack overflow or watchdog expiry during a trait call is the verdict for that case.",
          "ECDSA signing is deterministic (RFC 6979), so signatures are compared byte for byte; lookups and capability queries are not an effect and may differ.",
          "DESIGN.md §2 C18"),
 }
